@@ -377,6 +377,17 @@ func (c *Ctx) evalCall(x *ECall) CVal {
 	case "allocated":
 		v := c.evalInt(x.Args[0])
 		return CVal{T: tAnd(Term{app("<=", "0", v.S), sBool}, Term{app("<", v.S, c.st.alloc.S), sBool})}
+	case "sent", "lastSent": // ghost log of a channel: number of values sent / the last value sent
+		cv := c.eval(x.Args[0])
+		ct, ok := cv.GT.Underlying().(*types.Chan)
+		if !ok {
+			cfail("%s: not a channel", x.Fn)
+		}
+		nName, lName, lSort := chanGhost(e, ct.Elem())
+		if x.Fn == "sent" {
+			return CVal{T: tSelect(c.st.heapGet(e, nName, arrSort(sInt)), cv.T)}
+		}
+		return CVal{T: tSelect(c.st.heapGet(e, lName, arrSort(lSort)), cv.T), GT: ct.Elem()}
 	case "has": // has(m, k): key k is present in map m
 		mv := c.eval(x.Args[0])
 		mt, ok := mv.GT.Underlying().(*types.Map)
